@@ -758,3 +758,175 @@ pub fn gen_multi(rng: &mut Rng, ver: &str, w: &mut CaseWriter) {
         vec![ver.into(), defs_str(&infos), defs_str(&fmts3), ns.to_string(), recs.iter().map(rec_str).collect::<Vec<_>>().join("^"), ftab(&all)],
     );
 }
+
+// -------------------------------------------------------------------------------------------
+// lzb: the lazy Record at the level of its buffer and bounds (NV.Vcf.LazyRec): arbitrary BYTES
+// (several lines, a last line without LF, fewer than eight columns, CR anywhere, invalid UTF-8,
+// empty input) read with read_record into ONE reused Record until Ok(0) or Err.
+//   lzb ver infodefs fmtdefs ns hextext ftab
+//   obs = per call: Err | Eof | Panic | n|chrom,ids,ref,alts,filters,info,samples (hex of the
+//         accessor texts = the slices of the buffer)|record of the forced views or Err ; '^'-joined
+
+fn accessor_texts(rec: &vcf::Record) -> String {
+    let ids = rec.ids();
+    let alts = rec.alternate_bases();
+    let filters = rec.filters();
+    let info = rec.info();
+    let samples = rec.samples();
+    let v: Vec<&str> = vec![
+        rec.reference_sequence_name(),
+        ids.as_ref(),
+        rec.reference_bases(),
+        alts.as_ref(),
+        filters.as_ref(),
+        info.as_ref(),
+        samples.as_ref(),
+    ];
+    v.iter().map(|s| hex(s.as_bytes())).collect::<Vec<_>>().join(",")
+}
+
+pub fn run_lzb(c: &Case) -> Obs {
+    let header = match header_of(c) {
+        Ok(h) => h,
+        Err(e) => return Obs::fail("-", "lzb-header-unparsable", format!("{e}")),
+    };
+    let text = unhex(&c.args[4]);
+    let mut reader = vcf::io::Reader::new(&text[..]);
+    let mut rec = vcf::Record::default();
+    let mut out: Vec<String> = vec![];
+    let mut panicked = false;
+    let mut consumed = 0usize;
+    loop {
+        let r = g(|| reader.read_record(&mut rec).map_err(|_| ()));
+        match r {
+            R::Panic => { out.push("Panic".into()); panicked = true; break; }
+            R::Err => { out.push("Err".into()); break; }
+            R::Ok(0) => { out.push("Eof".into()); break; }
+            R::Ok(n) => {
+                consumed += n;
+                // every accessor, each behind the panic guard
+                let texts = g(|| Ok(accessor_texts(&rec)));
+                let view = g(|| canon_lazy(&header, &rec).map_err(|_| ()));
+                // the Debug impl forces every accessor once more
+                let dbg = g(|| Ok(format!("{rec:?}").len()));
+                let t = match texts { R::Ok(t) => t, _ => { out.push("Panic".into()); panicked = true; break; } };
+                let v = match view { R::Ok(cn) => rec_str(&cn), R::Err => "Err".into(), R::Panic => { out.push("Panic".into()); panicked = true; break; } };
+                if matches!(dbg, R::Panic) { out.push("Panic".into()); panicked = true; break; }
+                out.push(format!("{n}|{t}|{v}"));
+                if consumed > text.len() {
+                    return Obs::fail(out.join("^"), "lzb-read-record-count-exceeds-input", &c.args[4]);
+                }
+            }
+        }
+    }
+    let obs = out.join("^");
+    if panicked {
+        return Obs::fail(obs, lazy_panic_tag(&text), &c.args[4]);
+    }
+    Obs::ok(obs, true)
+}
+
+fn qual_ftab_all(text: &[u8]) -> String {
+    let mut v: Vec<String> = vec![];
+    for raw in text.split(|&b| b == b'\n') {
+        for line in [raw, if raw.ends_with(b"\r") { &raw[..raw.len() - 1] } else { raw }] {
+            let q = line.split(|&b| b == b'\t').nth(5).unwrap_or(&[]);
+            if let Some(f) = std::str::from_utf8(q).ok().and_then(|t| t.parse::<f32>().ok()) {
+                let e = format!("{0}:{1}:{0}", f.to_bits(), hex(q));
+                if !q.is_empty() && !v.contains(&e) {
+                    v.push(e);
+                }
+            }
+        }
+    }
+    if v.is_empty() { "-".into() } else { v.join(",") }
+}
+
+const LZB_FIXED: &[&[u8]] = &[
+    b"",
+    b"\n",
+    b"\r\n",
+    b"\t",
+    b"sq0",
+    b"sq0\t5",
+    b"sq0\t5\t.\tA\t.\t.\t.",
+    b"sq0\t5\t.\tA\t.\t.\t.\t.",
+    b"sq0\t5\t.\tA\t.\t.\t.\t.\r",
+    b"sq0\t5\t.\tA\t.\t.\t.\tI0=1\tGT\t0/1",
+    b"sq0\t5\t.\tA\t.\t.\t.\tI0=1\tGT\t0/1\r",
+    b"sq0\t5\t.\tA\t.\t.\t.\tI0=1\tGT\t0/1\t",
+    b"sq0\t5\t.\tA\t.\t.\t.\t.\t\r\n",
+    b"sq0\t5\t.\tA\t.\t.\t.\t.\t\n",
+    b"sq0\t5\t.\tA\t.\t.\t.\t\r\n",
+    b"sq0\t5\t.\tA\t.\t.\tPASS\r\t\n",
+    b"sq0\t5\t.\tA\t.\t.\tPASS\r\t\nsq1\t6\t.\tC\t.\t.\t.\t.\n",
+    b"sq0\t5\t.\tA\t.\t.\t.\t.\nsq1\t6\t.\tC\t.\t.\t.\t.\n",
+    b"sq0\t5\t.\tA\t.\t.\t.\t.\r\nsq1\t6\trs1;rs2\tC\tG,T\t1.5\tq10\tI0=3;END=9\tGT:F0\t0|1:7\t.\r\n",
+    b"sq0\t5\t.\tA\t.\t.\t.\t.\n\nsq1\t6\t.\tC\t.\t.\t.\t.\n",
+    b"sq0\t5\t.\tA\t.\t.\t.\t.\nsq1\t6\n",
+    b"sq0\t5\t.\tA\t.\t.\t.\t.\nsq1\t6",
+    b"sq0\t5\t.\tA\t.\t.\t.\t.\tGT\t0/1\nsq1\t6\t.\tC\t.\t.\t.\t.",
+    b"sq\xc3\xa90\t5\t\xc3\xa9\tA\t.\t.\t.\tI0=1\n",
+    b"sq\xc3\t5\t.\tA\t.\t.\t.\t.\n",
+    b"sq0\t5\t.\tA\t.\t.\t.\t\xff\n",
+    b"sq0\t5\t.\tA\t.\t.\t.\t.\tGT\t\xc3\n",
+    b"sq0\t5\t.\tA\t.\t.\t.\t.\tGT\t\xc3\xa9\n",
+    b"sq0\t5\t.\tA\t.\t.\t.\t.\tGT\t0/1\r\r\n",
+    b"sq0\t5\t.\tA\t.\t.\t.\tI0=1\r\r\n",
+    b"\r\t\r\t\r\t\r\t\r\t\r\t\r\t\r\n",
+    b"\t\t\t\t\t\t\t\r\n",
+    b"\t\t\t\t\t\t\t\t\r\n",
+    b".\t.\t.\t.\t.\t.\t.\t.\t.\n",
+    b".\t0\t.\t.\t.\t.\t.\t.\t.\t.\n",
+];
+
+pub fn gen_lzb(rng: &mut Rng, w: &mut CaseWriter, n_mut: usize) {
+    let infos = "I0/1/I,END/1/I,SVLEN/./I";
+    let fmts = "GT/1/S,F0/1/I,LEN/1/I";
+    let mut push = |w: &mut CaseWriter, ver: &str, ns: usize, t: &[u8]| {
+        let sv = if matches!(ver, "4.4" | "4.5") { infos.replace("SVLEN/.", "SVLEN/A") } else { infos.to_string() };
+        w.push("lzb", vec![ver.into(), sv, fmts.into(), ns.to_string(), hex(t), qual_ftab_all(t)]);
+    };
+    for t in LZB_FIXED {
+        push(w, "4.3", 2, t);
+        push(w, "4.5", 0, t);
+    }
+    for t in LTXT_LINES {
+        push(w, "4.4", 2, t.as_bytes());
+        // the same line as the last line of a file, without its terminator
+        let b = t.as_bytes();
+        let cut = b.iter().position(|&x| x == b'\n').unwrap_or(b.len());
+        push(w, "4.3", 2, &b[..cut]);
+    }
+    for _ in 0..n_mut {
+        // one to three lines, mutated: delete / duplicate / replace / insert separators, CR, LF,
+        // bytes that are not UTF-8; sometimes the final LF removed
+        let mut t: Vec<u8> = vec![];
+        for _ in 0..rng.range(1, 3) {
+            if rng.below(3) == 0 {
+                t.extend_from_slice(*rng.pick(LZB_FIXED));
+            } else {
+                t.extend_from_slice(rng.pick(LTXT_LINES).as_bytes());
+            }
+            if !t.ends_with(b"\n") && rng.below(2) == 0 {
+                t.push(b'\n');
+            }
+        }
+        for _ in 0..rng.range(0, 3) {
+            if t.is_empty() {
+                break;
+            }
+            let i = rng.below(t.len() as u64) as usize;
+            match rng.below(5) {
+                0 => { t.remove(i); }
+                1 => { let b = t[i]; t.insert(i, b); }
+                2 => t[i] = *rng.pick(b"\t;:=,./|.0%\r\n"),
+                3 => t.insert(i, *rng.pick(b"\t\t\t;:=,./|.0%\r\r\n\xc3\xa9\xff")),
+                _ => { t.truncate(i); }
+            }
+        }
+        let ver = *rng.pick(VERS);
+        let ns = *rng.pick(&[0usize, 1, 2, 2, 3]);
+        push(w, ver, ns, &t);
+    }
+}
